@@ -20,8 +20,19 @@ LEVEL_TEXT = ("Theorems in Coq over the model of server/wal (as repaired by fixe
 LEVEL_NOTE = ("Trusted: Coq kernel, extraction (ExtrOcamlBasic), the Go harness and its canonicalisation. Modelled, not verified: "
               "protobuf (record sizes are inputs taken from proto.Marshal), mmap/msync and the codec (C10), the read-only segment "
               "cache (assumed transparent; exercised by the correspondence runs), the wall clock (injected), goroutine "
-              "interleavings of trimmer/sync with the writer (operations are sequential here). Reopen is a clean Close+open "
-              "(crash images are C10). Entries larger than a segment are outside the proved domain (known finding "
+              "interleavings of trimmer/sync with the writer (operations are sequential here). In the Coq model reopen is a clean "
+              "Close+open: the model has no crash relation, so the INTERMEDIATE DIRECTORY STATES of the multi-file operations "
+              "(rollover, truncate across segments, clear, trim deleting segments, close, index write) are outside the model and the "
+              "theorems; they are covered by the leg `walcrash` only (spec verdicts, no proof): the directory is copied at every hook "
+              "point reachable without touching logic (CommitOffsetProvider inside newReadWriteSegment; delegating wrappers around the "
+              "current segment and the read-only group before/after Close/Delete/Truncate/TrimSegments/PollHighestSegment; empty and "
+              "half-written index file after a segment close; between calls), a WAL is opened on each distinct copy and must reopen, be "
+              "contiguous and readable both ways, hold every entry synced before the interrupted call that the call does not remove, "
+              "hold nothing the list never had, and accept the append at last+1. For the calls that unlink several files (segment Delete, "
+              "TrimSegments, Clear) the directory is watched with inotify during the call; the queued events give the exact order of the "
+              "unlinks, and the directory after each single unlink (opening copy minus the files unlinked so far) is judged the same way. "
+              "Not reached: torn page write-back and partially written records (byte-level crash images are C10), a crash between the "
+              "creation and the zero-fill of a new segment file. Entries larger than a segment are outside the proved domain (known finding "
               "oversize-entry:wal-unusable). Reopen may lower FirstOffset to the base of the oldest retained segment: the "
               "specification allows it (entries hidden by a trim but still on disk become visible again; none is altered).")
 TRUSTED = ["modelled not verified: protobuf sizes (inputs), codec v2 header size 12 (checked at harness start), mmap, wall clock (injected MockedClock)"]
@@ -29,13 +40,18 @@ ASSUMES = ["SegmentSize < 2^31 (int32 option)",
            "every appended entry is a non-empty record that fits an empty segment: 0 < psize, 12 + psize <= SegmentSize",
            "readers are opened at offsets >= -1",
            "expiry clause of c09_trim_safe: timestamps non-decreasing along the log (c09_trim_nonmonotone_refuted shows it is needed)",
-           "operations are sequential (one critical section at a time); close is clean"]
+           "operations are sequential (one critical section at a time); in the model close is clean (crash points: leg walcrash, spec verdicts only)"]
 RULE = ("one case = one operation sequence of 30-65 ops on a fresh WAL: segment size from {64,96,128,256,1024,65536}, record sizes aimed "
         "at ending on / one before / one after the segment end, truncation targets at segment firsts/lasts/first offset/-1/beyond last, "
         "trims with cutoff around entry timestamps and commit offsets around segment boundaries/first/last/-1, reopen anywhere, "
         "forward/reverse reads every few ops; non-trivial = every generated sequence (all contain rollovers), distinct by full op list")
 LEGS = [
-    {"name": "wal", "harness": "wal", "model": "wal", "n_quick": 3000, "n_thorough": 150000,
+    {"name": "wal", "harness": "wal", "model": "wal", "n_quick": 1500, "n_thorough": 150000,
      "corpus": "corpus/wal", "timeout": 900, "timeout_thorough": 3000},
+    # crash points inside the multi-step file operations (rollover, cross-segment truncate, clear, trim, close,
+    # index write): directory copies taken from hooks inside the calls, a WAL reopened on every distinct copy and
+    # judged against the list (spec verdicts only, no model)
+    {"name": "walcrash", "harness": "wal", "model": None, "n_quick": 120, "n_thorough": 20000,
+     "args": ["-mode", "crash"], "corpus": "corpus/wal", "timeout": 900, "timeout_thorough": 3000},
 ]
 REGISTERED = True
